@@ -485,6 +485,139 @@ static void run(job_t *j, vf_rng *r)
         mx(fam, "_solve-residual-ratio", ra);
         if (!(ra <= CSAFE)) { viol(fam, "_solve", "residual-outside-bound", "n=%u variant %u: a row of b - A x is %.4g times the c=1 bound gamma_3n (|L||U|)|x|", n, j->sub, ra); goto done; }
     }
+    /* ---- the sweeps on their own, on EVERY documented argument form (h_linalg_fact.c, "every DOCUMENTED argument form of the sweeps"):
+       plu_lower(_)/plu_upper(_)/llt_lower(_)/llt_upper(_) are documented for "the lower / upper triangular matrix", so they get
+       (0) the storage the factorization left, (1) the matrices a_real_plu_L / a_real_plu_U / a_real_llt_L deliver, (2,3) the storage
+       with every entry that is not part of the argument (llt: strictly upper triangle; plu_lower: diagonal and above; plu_upper:
+       strictly lower triangle) set to +-2^(MAX_EXP-8) resp. NaN, and (4, exact kinds) the factors L0 / U0 the generator built, with
+       zeros on the other side of the diagonal - no library routine in between.  The ldl sweeps are documented for the storage of
+       a_real_ldl only: (0) that storage, and (1) the extracted unit lower L and d through the generic sweeps a_real_plu_lower,
+       y / d, a_real_llt_upper (same operations in the same order).  Plain and strided (column col of an n x n block), the chain
+       apply -> lower -> upper judged like <fam>_solve: == x0 on the exact kinds, the gamma_3n residual bound otherwise. */
+    {
+        size_t const nn = (size_t)n * n;
+        a_real *Lm = blk(nn), *Um = blk(nn), *Bk = blk(nn), *xc = blk(n), *Pb = blk(n);
+        unsigned const col = (unsigned)vf_below(r, n);
+        int const nforms = fam == LDL ? 2 : (j->has_ef && j->exact_solve) ? 5 : 4;
+        int bad = 1; /* cleared when every form was judged */
+        static char const *const fname[3][5] = {
+            {"compact", "extracted-LU", "compact-rest-huge", "compact-rest-nan", "user-built-L0-U0"},
+            {"compact", "extracted-LD", "", "", ""},
+            {"compact", "extracted-L", "compact-upper-huge", "compact-upper-nan", "user-built-L0"}};
+        static char const *const cname[3][5] = {
+            {"-sweeps-on-compact", "-sweeps-on-extracted-LU", "-sweeps-on-compact-rest-huge", "-sweeps-on-compact-rest-nan", "-sweeps-on-user-built-factor"},
+            {"-sweeps-on-compact", "-sweeps-on-extracted-LD", "", "", ""},
+            {"-sweeps-on-compact", "-sweeps-on-extracted-L", "-sweeps-on-compact-upper-huge", "-sweeps-on-compact-upper-nan", "-sweeps-on-user-built-factor"}};
+        if (fam == PLU) { a_real_plu_apply(n, p, b, Pb); }
+        else { memcpy(Pb, b, n * sizeof(a_real)); }
+        for (unsigned i = 0; i < n; ++i) { rhs[i] = (q_t)b[i]; }
+        for (int form = 0; form < nforms; ++form)
+        {
+            char const *fnm = fname[fam][form];
+            a_real const huge = p2(A_REAL_MAX_EXP - 8);
+            memset(Lm, 0xA5, nn * sizeof(a_real));
+            memset(Um, 0xA5, nn * sizeof(a_real));
+            if (form == 1)
+            {
+                if (fam == PLU) { a_real_plu_L(n, F, Lm); a_real_plu_U(n, F, Um); }
+                else if (fam == LDL) { a_real_ldl_L(n, F, Lm); a_real_ldl_D(n, F, dv); }
+                else { a_real_llt_L(n, F, Lm); }
+            }
+            else
+            {
+                for (unsigned i = 0; i < n; ++i)
+                {
+                    for (unsigned k = 0; k < n; ++k)
+                    {
+                        a_real const pz = form == 3 ? (a_real)NAN : ((i + k) & 1) ? -huge : huge;
+                        a_real const s = form == 4 ? j->EF[IX(i, k)] : F[IX(i, k)];
+                        int const poison = form == 2 || form == 3;
+                        if (fam == PLU)
+                        {
+                            Lm[IX(i, k)] = k < i ? s : poison ? pz : form == 4 ? (a_real)(k == i) : s;
+                            Um[IX(i, k)] = k >= i ? s : poison ? pz : form == 4 ? 0 : s;
+                        }
+                        else { Lm[IX(i, k)] = k <= i ? s : poison ? pz : form == 4 ? 0 : s; }
+                    }
+                }
+            }
+            a_real const *La = Lm, *Ua = fam == PLU ? Um : Lm;
+            for (int strided = 0; strided < 2; ++strided)
+            {
+                a_real *v = strided ? Bk + col : x;
+                size_t const st = strided ? n : 1;
+                char rt[24];
+                snprintf(rt, sizeof(rt), "_upper%s", strided ? "_" : "");
+                if (strided) { for (size_t i = 0; i < nn; ++i) { Bk[i] = 7; } }
+                for (unsigned i = 0; i < n; ++i) { v[st * i] = Pb[i]; }
+                vf_log("a_real_%s_lower%s + _upper%s on argument form %s", fam_name[fam], strided ? "_" : "", strided ? "_" : "", fnm);
+                vf.evals += 2;
+                if (fam == PLU)
+                {
+                    if (strided) { a_real_plu_lower_(n, La, v); a_real_plu_upper_(n, Ua, v); }
+                    else { a_real_plu_lower(n, La, v); a_real_plu_upper(n, Ua, v); }
+                }
+                else if (fam == LLT)
+                {
+                    if (strided) { a_real_llt_lower_(n, La, v); a_real_llt_upper_(n, Ua, v); }
+                    else { a_real_llt_lower(n, La, v); a_real_llt_upper(n, Ua, v); }
+                }
+                else if (form == 0)
+                {
+                    if (strided) { a_real_ldl_lower_(n, La, v); a_real_ldl_upper_(n, Ua, v); }
+                    else { a_real_ldl_lower(n, La, v); a_real_ldl_upper(n, Ua, v); }
+                }
+                else
+                {
+                    if (strided) { a_real_plu_lower_(n, La, v); } else { a_real_plu_lower(n, La, v); }
+                    for (unsigned i = 0; i < n; ++i) { v[st * i] /= dv[i]; }
+                    if (strided) { a_real_llt_upper_(n, La, v); } else { a_real_llt_upper(n, La, v); }
+                }
+                cnt(fam, cname[fam][form]);
+                for (size_t i = 0; i < nn && strided; ++i)
+                {
+                    if (i % n != col && !(Bk[i] == 7)) { viol(fam, rt, "wrote-outside-its-column", "n=%u form %s column %u: cell (%zu,%zu) of the block changed", n, fnm, col, i / n, i % n); goto forms_done; }
+                }
+                if (j->exact_solve)
+                {
+                    for (unsigned i = 0; i < n; ++i)
+                    {
+                        if (!(v[st * i] == (a_real)j->x0[i]))
+                        {
+                            char cl[64];
+                            snprintf(cl, sizeof(cl), "%s/chain-ne-exact-solution", fnm);
+                            viol(fam, rt, cl, "n=%u %s: lower then upper sweep on argument form %s: x[%u] = %.21Lg, exact solution %d (every intermediate is exactly representable)", n, kind_name[j->kind], fnm, i, (long double)v[st * i], j->x0[i]);
+                            goto forms_done;
+                        }
+                    }
+                }
+                else
+                {
+                    double const ra = resid(j, pu, Wm, Lq, ufs, gam(fam == PLU ? 3 * n : 3 * n + 1), rhs, v, (unsigned)st);
+                    mx(fam, "-forms-chain-residual-ratio", ra);
+                    if (!(ra <= CSAFE))
+                    {
+                        char cl[64];
+                        snprintf(cl, sizeof(cl), "%s/chain-residual-outside-bound", fnm);
+                        viol(fam, rt, cl, "n=%u variant %u: lower then upper sweep on argument form %s: a row of b - A x is %.4g times the c=1 bound", n, j->sub, fnm, ra);
+                        goto forms_done;
+                    }
+                }
+                /* recorded, not judged: bitwise agreement with the plain sweeps on the storage */
+                if (form == 0 && !strided) { memcpy(xc, x, n * sizeof(a_real)); }
+                else
+                {
+                    int same = 1;
+                    for (unsigned i = 0; i < n; ++i) { if (memcmp(&v[st * i], &xc[i], sizeof(a_real)) != 0 && !(v[st * i] == xc[i])) { same = 0; } }
+                    cnt(fam, same ? "-forms-equal-compact-result" : "-forms-differ-from-compact(not judged)");
+                }
+            }
+        }
+        bad = 0;
+    forms_done:
+        free(Lm); free(Um); free(Bk); free(xc); free(Pb);
+        if (bad) { goto done; }
+    }
     /* ---- inverse, both variants */
     if (j->exact_inv || j->kind <= K_ROUNDED)
     {
